@@ -252,6 +252,7 @@ func c20prog(c *Ctx, p *Prog) {
 		}
 		acc[d][top] = append(acc[d][top], a)
 	}
+	depthOf := map[ssa.Value]int{}
 	var classify func(d *Disc, fn *ssa.Function, addr ssa.Value, path string, ftype types.Type)
 	classify = func(d *Disc, fn *ssa.Function, addr ssa.Value, path string, ftype types.Type) {
 		refs := addr.Referrers()
@@ -276,6 +277,22 @@ func c20prog(c *Ctx, p *Prog) {
 			case *ssa.FieldAddr:
 				classify(d, fn, x, path+"."+fieldName(x.X.Type(), x.Field), x.Type().(*types.Pointer).Elem())
 			case *ssa.DebugRef:
+			case *ssa.Call:
+				// the address handed to a product function (a pointer-receiver method of a wrapper type):
+				// what that function does through its parameter is done to the field
+				followed := false
+				if cal := p.Callee(x); cal != nil && p.IsProduct(cal) && depthOf[addr] < 3 {
+					for i, a := range x.Call.Args {
+						if a == addr && i < len(cal.Params) {
+							depthOf[cal.Params[i]] = depthOf[addr] + 1
+							classify(d, cal, cal.Params[i], path, ftype)
+							followed = true
+						}
+					}
+				}
+				if !followed {
+					addAcc(d, &fieldAccess{path: path, kind: "escape", in: x, fn: fn, ftype: ftype, how: "address of the field escapes"})
+				}
 			default:
 				if in, ok := ref.(ssa.Instruction); ok {
 					addAcc(d, &fieldAccess{path: path, kind: "escape", in: in, fn: fn, ftype: ftype, how: "address of the field escapes"})
